@@ -6,6 +6,7 @@ package harness
 import (
 	"fmt"
 	"math/rand"
+	"strings"
 	"sync"
 	"testing"
 	"time"
@@ -34,10 +35,22 @@ func genCrashScn(rng *rand.Rand, maxN int) faultScn {
 	t := time.Duration(3000+rng.Intn(8000)) * time.Millisecond
 	for i := 0; i < k; i++ {
 		kind := "crash"
-		if rng.Intn(3) == 0 {
+		switch rng.Intn(6) {
+		case 0, 1:
 			kind = "hang" // process wedged: sockets stay open, nothing answers
+		case 2:
+			kind = "unreach" // host and route gone: sends towards it fail locally (ENETUNREACH)
 		}
 		sc.Actions = append(sc.Actions, faultAction{At: t, Kind: kind, A: perm[i]})
+		if kind == "crash" && rng.Intn(3) == 0 {
+			// the crashed member's address is taken over by a member with a different name
+			// (often before anybody has had the time to notice the crash)
+			d := time.Duration(200+rng.Intn(10000)) * time.Millisecond
+			if rng.Intn(2) == 0 {
+				d = time.Duration(10+rng.Intn(400)) * time.Millisecond
+			}
+			sc.Actions = append(sc.Actions, faultAction{At: t + d, Kind: "replace", A: perm[i]})
+		}
 		switch rng.Intn(4) {
 		case 0:
 			// during another node's join / push-pull
@@ -168,7 +181,7 @@ func runC03Crash(run *Run, seed int64, sc faultScn, rng *rand.Rand) (out []*c01R
 	next := 0
 	var lastCrash time.Duration
 	for _, a := range sc.Actions {
-		if (a.Kind == "crash" || a.Kind == "hang") && a.At > lastCrash {
+		if (a.Kind == "crash" || a.Kind == "hang" || a.Kind == "unreach") && a.At > lastCrash {
 			lastCrash = a.At
 		}
 	}
@@ -188,6 +201,11 @@ func runC03Crash(run *Run, seed int64, sc faultScn, rng *rand.Rand) (out []*c01R
 				var who string
 				if n, _ := fmt.Sscanf(ln.Text, "[DEBUG] memberlist: Failed UDP ping: %s (timeout reached)", &who); n == 1 {
 					pending[who] = ln.At
+				}
+				// a node runs one probe at a time: a probe that was rescued over TCP, or a later one whose
+				// datagram the local stack refused (no "Failed UDP ping" line), ends the pending one
+				if strings.Contains(ln.Text, "over TCP but UDP probes failed") || strings.Contains(ln.Text, "Failed to send UDP ") {
+					pending = map[string]time.Time{}
 				}
 				if n, _ := fmt.Sscanf(ln.Text, "[INFO] memberlist: Suspect %s has failed, no acks received", &who); n == 1 {
 					if t1, ok := pending[who]; ok {
@@ -375,7 +393,7 @@ func runC03Schedule(run *Run, seed int64, n int, passes int, pv int) (out []*c01
 
 func TestC03(t *testing.T) {
 	run := NewRun(t, "C03", "exploration",
-		"Bounded-progress restatement of an 'eventually' property, decided in virtual time. Crash scenarios: real clusters of 3-12 (thorough 3-24) nodes, 1..ceil(n/2)-1 crashes (black hole + shutdown) at PRNG instants incl. during another node's join/push-pull/update and inside another crash's suspicion window, loss among survivors in {0,10,30,60,100}%, config matrix (protocol version, indirect checks 0-3, TCP fallback, encryption, label, compression, push/pull interval). For every (survivor S, crashed C) with C listed by S: t_leave - t0 <= B where t0 = max(crash, last instant S accepted an alive claim about C as seen in 200 ms dump polls / join-update events) and B = 2*N_S*(AwarenessMax+1)*ProbeInterval + SuspicionMaxTimeoutMult*suspicionTimeout(N_S) + ProbeInterval with N_S the largest record count S held; S must deliver a leave event. Schedule scenarios: fault-free stable clusters, every ping on the tap is a direct probe; per prober the per-peer ping counts over >= 8 passes differ by at most 2, never itself. Cell = (n bucket, loss, crash count, tcp, indirect) / schedule(n).")
+		"Bounded-progress restatement of an 'eventually' property, decided in virtual time. Crash scenarios: real clusters of 3-12 (thorough 3-24) nodes, 1..ceil(n/2)-1 crashes (black hole + shutdown; hung process; host and route gone so that sends fail locally with ENETUNREACH; black hole whose address is later taken over by a member with another name) at PRNG instants incl. during another node's join/push-pull/update and inside another crash's suspicion window, loss among survivors in {0,10,30,60,100}%, config matrix (protocol version, indirect checks 0-3, TCP fallback, encryption, label, compression, push/pull interval). For every (survivor S, crashed C) with C listed by S: t_leave - t0 <= B where t0 = max(crash, last instant S accepted an alive claim about C as seen in 200 ms dump polls / join-update events) and B = 2*N_S*(AwarenessMax+1)*ProbeInterval + SuspicionMaxTimeoutMult*suspicionTimeout(N_S) + ProbeInterval with N_S the largest record count S held; S must deliver a leave event. Schedule scenarios: fault-free stable clusters, every ping on the tap is a direct probe; per prober the per-peer ping counts over >= 8 passes differ by at most 2, never itself. Cell = (n bucket, loss, crash count, tcp, indirect) / schedule(n).")
 	defer run.Finish()
 	run.Assume("B is a deliberately loose upper bound: the failures it is meant to expose (peer never probed, timer never firing) are unbounded", "no finite run decides 'eventually': the claim is bounded progress on the executions produced")
 	n := run.Pick(96, 4800)
@@ -403,8 +421,12 @@ func TestC03(t *testing.T) {
 			if a.Kind == "loss" {
 				loss = a.P
 			}
-			if a.Kind == "crash" || a.Kind == "hang" {
+			if a.Kind == "crash" || a.Kind == "hang" || a.Kind == "unreach" {
 				crashes++
+				run.Cell("crash-kind", a.Kind, fmt.Sprintf("tcp=%v", sc.TCPPing))
+			}
+			if a.Kind == "replace" {
+				run.Cell("crash-kind", "address-taken-over", fmt.Sprintf("tcp=%v", sc.TCPPing))
 			}
 		}
 		nb := "n<=4"
@@ -444,6 +466,9 @@ func TestC03(t *testing.T) {
 		for _, r := range res {
 			run.Violation(id, r.Key, r.What, map[string]any{"n": nn})
 		}
+	}
+	if !run.Replaying() {
+		run.Require("crash-kind|crash|tcp=true", "crash-kind|hang|tcp=true", "crash-kind|unreach|tcp=true", "crash-kind|unreach|tcp=false", "crash-kind|address-taken-over|tcp=true")
 	}
 	run.Complete()
 	if run.Violations() > 0 {
